@@ -90,7 +90,7 @@ def sh(cmd, **kw):
 def main(argv):
     want = set(argv) or {"C13", "C16", "C17"}
     sh(f"git -C {REPO} checkout -- .")
-    for pid, name, edits in M:
+    for pid, name, edits in (list(reversed(M)) if os.environ.get("MUT_ORDER") == "reverse" else M):
         if pid not in want:
             continue
         ok = True
